@@ -397,13 +397,100 @@ def parse_nanoc_model(line):
     return dict(cls='exit', code=int(f[1], 16), binary=f[2] == '1', failed=failed, warn=warn, stderr_failed=f[5].endswith('1'))
 
 
+class Names:
+    """fresh-name source with the interface shadow_body needs"""
+    def __init__(self, start=1):
+        self.next_name = start
+        self.feat = {}
+    def fresh(self):
+        n = self.next_name; self.next_name += 1; return n
+    def f(self, k):
+        self.feat[k] = self.feat.get(k, 0) + 1
+
+
+def clash_program(seed):
+    """Synthetic programs aimed at the evaluator's single symbol stack: callers whose parameter / let / for variable is
+    spelled like a top-level constant that a callee reads; lets inside blocks that shadow a live name which is read again
+    after the block (or in the next loop iteration); recursion through such frames.  Random constants and composition."""
+    r = random.Random(seed * 2654435761 % (2 ** 32))
+    g = Names()
+    NUM = lambda z: ('num', z)
+    VAR = lambda x: ('var', x)
+    PR = lambda e: ('print', True, e)
+    G1, G2 = g.fresh(), g.fresh()
+    k1, k2 = r.randrange(2, 50), r.randrange(-9, 9)
+    globals_ = [(G1, 'int', NUM(k1)), (G2, 'int', ('bin', 'add', VAR(G1), NUM(k2)))]
+    fns = []
+    def add(params, ret, body, feat):
+        n = g.fresh()
+        fns.append(dict(name=n, params=params, ret=ret, body=body, effect=True)); g.f(feat); return n
+    # readers of free names
+    rd1 = add([], 'int', ('ret', ('bin', r.choice(['add', 'mul', 'sub']), VAR(G1), NUM(r.randrange(1, 5)))), 'reader0')
+    a = g.fresh()
+    rd2 = add([(a, 'int')], 'int', seq([PR(VAR(G2)), ('ret', ('bin', 'add', VAR(a), ('bin', 'mul', VAR(G1), VAR(G2))))]), 'reader1')
+    readers = [(rd1, 0), (rd2, 1)]
+    def call_reader(arg):
+        f, ar = r.choice(readers)
+        return ('call', f, [arg] if ar else [])
+    kinds = ['param', 'let', 'for', 'blockexit', 'while-let', 'forbody', 'recursive', 'clean', 'nested-call', 'set-free']
+    r.shuffle(kinds)
+    for kind in kinds[:r.randrange(3, 7)]:
+        gx = r.choice([G1, G2])
+        if kind == 'param':
+            add([(gx, 'int')], 'int', seq([PR(VAR(gx)), ('ret', call_reader(VAR(gx)))]), 'clash-param')
+        elif kind == 'let':
+            b = g.fresh()
+            add([(b, 'int')], 'int', seq([('let', False, gx, 'int', ('bin', 'add', VAR(b), NUM(r.randrange(1, 9)))), ('ret', ('bin', 'add', call_reader(VAR(b)), VAR(gx)))]), 'clash-let')
+        elif kind == 'for':
+            s_ = g.fresh()
+            add([], 'int', seq([('let', True, s_, 'int', NUM(0)),
+                                ('for', gx, NUM(0), NUM(r.randrange(1, 4)), ('set', s_, ('bin', 'add', VAR(s_), call_reader(VAR(gx))))),
+                                ('ret', ('bin', 'add', VAR(s_), VAR(gx)))]), 'clash-for')
+        elif kind == 'blockexit':
+            b, x = g.fresh(), g.fresh()
+            add([(b, 'int')], 'int', seq([('let', False, x, 'int', ('bin', 'mul', VAR(b), NUM(2))),
+                                          ('if', ('bin', 'gt', VAR(b), NUM(r.randrange(-2, 3))), seq([('let', False, x, 'int', NUM(r.randrange(50, 60))), PR(VAR(x))]), PR(NUM(0))),
+                                          PR(VAR(x)), ('ret', VAR(x))]), 'block-exit')
+        elif kind == 'while-let':
+            c_, x = g.fresh(), g.fresh()
+            add([], 'int', seq([('let', False, x, 'int', NUM(r.randrange(1, 9))), ('let', True, c_, 'int', NUM(0)),
+                                ('while', ('bin', 'lt', VAR(c_), NUM(r.randrange(1, 4))),
+                                 seq([('set', c_, ('bin', 'add', VAR(c_), NUM(1))), PR(VAR(x)), ('let', False, x, 'int', ('bin', 'mul', VAR(c_), NUM(10)))])),
+                                ('ret', VAR(x))]), 'while-let')
+        elif kind == 'forbody':
+            i_, s_ = g.fresh(), g.fresh()
+            add([], 'int', seq([('let', True, s_, 'int', NUM(0)),
+                                ('for', i_, NUM(0), NUM(r.randrange(2, 5)), seq([PR(VAR(i_)), ('set', s_, ('bin', 'add', VAR(s_), VAR(i_))), ('let', False, i_, 'int', NUM(r.randrange(7, 20)))])),
+                                ('ret', VAR(s_))]), 'for-body-let')
+        elif kind == 'recursive':
+            n_ = g.fresh()
+            me = g.next_name
+            add([(n_, 'int')], 'int', seq([('if', ('bin', 'le', VAR(n_), NUM(0)), ('ret', call_reader(VAR(n_))), ('skip',)),
+                                           ('if', ('bin', 'gt', VAR(n_), NUM(6)), ('ret', NUM(-1)), ('skip',)),
+                                           ('let', False, gx, 'int', ('bin', 'mul', VAR(n_), NUM(100))),
+                                           ('ret', ('bin', 'add', ('call', me, [('bin', 'sub', VAR(n_), NUM(1))]), VAR(gx)))]), 'clash-recursive')
+        elif kind == 'clean':
+            b, x = g.fresh(), g.fresh()
+            add([(b, 'int')], 'int', seq([('let', False, x, 'int', call_reader(VAR(b))), PR(VAR(x)), ('ret', ('bin', 'sub', VAR(x), VAR(G1)))]), 'clean-caller')
+        elif kind == 'nested-call':
+            b = g.fresh()
+            inner = add([(b, 'int')], 'int', ('ret', ('bin', 'add', call_reader(VAR(b)), NUM(1))), 'clean-caller')
+            add([(gx, 'int')], 'int', ('ret', ('call', inner, [VAR(gx)])), 'clash-nested')
+        elif kind == 'set-free':
+            # `set` of the caller's variable through the shared stack cannot be written in a type-correct program (globals are
+            # immutable); a mutable local named like a global, updated before the callee reads the global
+            add([], 'int', seq([('let', True, gx, 'int', NUM(1)), ('set', gx, ('bin', 'add', VAR(gx), NUM(r.randrange(1, 9)))), ('ret', call_reader(VAR(gx)))]), 'clash-mut-let')
+    fns.append(dict(name=0, params=[], ret='int', body=('ret', NUM(0)), effect=True))
+    return g, dict(globals=globals_, fns=fns, main=0)
+
+
 # ------------------------------------------------------------------------------------------ building a batch of cases
-def build_cases(ck, nv_lang, seeds, cfg, modes, tag, drop_shadow_prob=0.0):
+def build_cases(ck, nv_lang, seeds, cfg, modes, tag, drop_shadow_prob=0.0, genf=None):
     """Generates programs, asks the reference semantics for the values the shadow assertions expect, builds S/A/sprog.
     Returns list of Case."""
     pre = []
     for i, seed in enumerate(seeds):
-        g, p = gen_program(seed, cfg)
+        g, p = genf(seed) if genf else gen_program(seed, cfg)
         rng = random.Random(seed ^ 0x5bd1e995)
         calls = choose_calls(rng, g, p, cfg)
         pre.append((seed, g, p, rng, calls))
